@@ -25,6 +25,9 @@ type cenv struct {
 	bound   map[string]Val
 	err     error
 	where   string
+	pol     int      // +1: the clause is a goal, -1: it is assumed, 0: unknown polarity
+	ante    []string // antecedents enclosing the current sub-formula (assumed clauses)
+	guard   string   // path guard under which an assumed clause holds
 }
 
 func (c *cenv) clone() *cenv {
@@ -48,6 +51,26 @@ var intT = types.Typ[types.Int]
 
 func bval(t string) Val { return Val{K: KBool, T: t, Typ: boolT} }
 
+// evalGoal / evalAssume evaluate a clause with known polarity, so that
+// universally quantified goals are Skolemised and universally quantified
+// assumptions are instantiated lazily (quantifier-free VCs by construction).
+func (c *cenv) evalGoal(src string) string {
+	c.pol = 1
+	c.ante = nil
+	t := c.evalSpec(src)
+	c.pol = 0
+	return t
+}
+
+func (c *cenv) evalAssume(guard, src string) string {
+	c.pol = -1
+	c.ante = nil
+	c.guard = guard
+	t := c.evalSpec(src)
+	c.pol = 0
+	return t
+}
+
 // evalSpec evaluates a contract expression to a Bool term.
 func (c *cenv) evalSpec(src string) string {
 	v := c.eval(src)
@@ -66,12 +89,22 @@ func (c *cenv) eval(src string) Val {
 		return c.evalQuant(src)
 	}
 	if parts := splitTopStr(src, "<==>"); len(parts) > 1 {
+		sp := c.pol
+		c.pol = 0
 		a, b := c.eval(parts[0]), c.eval(strings.Join(parts[1:], "<==>"))
+		c.pol = sp
 		return bval(eq(a.T, b.T))
 	}
 	if parts := splitTopStr(src, "==>"); len(parts) > 1 {
+		sp := c.pol
+		c.pol = -sp
+		sa := c.ante
+		c.ante = nil
 		a := c.eval(parts[0])
+		c.pol = sp
+		c.ante = append(append([]string(nil), sa...), a.T)
 		b := c.eval(strings.Join(parts[1:], "==>"))
+		c.ante = sa
 		return bval(implies(a.T, b.T))
 	}
 	// replace parenthesised groups that contain spec syntax by placeholders
@@ -185,21 +218,34 @@ func (c *cenv) evalQuant(src string) Val {
 	}
 	head, body := strings.TrimSpace(rest[:i]), rest[i+2:]
 	fv := c.fv
-	var name, guard string
+	var name, guard, loSrc, hiSrc string
+	var hints []string
 	var bv Val
 	hf := strings.Fields(head)
 	if len(hf) >= 3 && hf[1] == "in" {
 		name = hf[0]
 		rng := strings.Join(hf[2:], " ")
+		if i := strings.Index(rng, " at("); i >= 0 {
+			j := matchParen(rng, i+3)
+			if j > 0 {
+				for _, h := range splitTop(rng[i+4:j], ',') {
+					hints = append(hints, strings.TrimSpace(h))
+				}
+				rng = strings.TrimSpace(rng[:i])
+			}
+		}
 		p := strings.SplitN(rng, "..", 2)
 		if len(p) != 2 {
 			return c.fail("bad range in %q", src)
 		}
+		loSrc, hiSrc = p[0], p[1]
 		fv.n++
 		sym := fmt.Sprintf("%s!%d", name, fv.n)
 		bv = Val{K: KBV, W: 64, T: sym, Typ: intT}
-		lo, hi := c.eval(p[0]), c.eval(p[1])
-		guard = and("(bvsle "+c.as64(lo)+" "+sym+")", "(bvslt "+sym+" "+c.as64(hi)+")")
+		if !(fv.boundDepth == 0 && c.pol != 0) {
+			lo, hi := c.eval(p[0]), c.eval(p[1])
+			guard = and("(bvsle "+c.as64(lo)+" "+sym+")", "(bvslt "+sym+" "+c.as64(hi)+")")
+		}
 	} else if len(hf) == 2 {
 		name = hf[0]
 		t := c.typeOf(hf[1])
@@ -213,8 +259,66 @@ func (c *cenv) evalQuant(src string) Val {
 	} else {
 		return c.fail("bad quantifier head %q", head)
 	}
+	if fv.boundDepth == 0 && c.pol != 0 && (q == "forall" || c.pol < 0) {
+		ranged := len(hf) >= 3 && hf[1] == "in"
+		var lo64, hi64 string
+		srt := bv.sortOf()
+		if ranged {
+			lo, hi := c.eval(loSrc), c.eval(hiSrc)
+			lo64, hi64 = c.as64(lo), c.as64(hi)
+		}
+		mkGuard := func(x string) string {
+			if !ranged {
+				return "true"
+			}
+			return and("(bvsle "+lo64+" "+x+")", "(bvslt "+x+" "+hi64+")")
+		}
+		if (q == "forall" && c.pol > 0) || (q == "exists" && c.pol < 0) {
+			// Skolemise
+			sk := fv.decl(name+"_sk", srt)
+			skv := bv
+			skv.T = sk
+			if !ranged {
+				fv.assumeWF(c.st, skv)
+			}
+			c2 := c.clone()
+			c2.vars[name] = skv
+			fv.instantiateLazies(sk, srt)
+			b := c2.eval(body)
+			if c2.err != nil && c.err == nil {
+				c.err = c2.err
+			}
+			if q == "forall" {
+				return bval(implies(mkGuard(sk), b.T))
+			}
+			return bval(and(mkGuard(sk), b.T))
+		}
+		if q == "forall" && c.pol < 0 {
+			// assumed universal: instantiate lazily at Skolem constants and hints
+			cc := c.clone()
+			cc.st = c.st.clone()
+			cc.pol = -1
+			lq := &lazyQuant{env: cc, name: name, proto: bv, sort: srt, mkGuard: mkGuard, body: body, guard: and(append([]string{c.guard}, c.ante...)...), done: map[string]bool{}}
+			fv.lazies = append(fv.lazies, lq)
+			for _, h := range hints {
+				hv := c.eval(h)
+				if ranged {
+					fv.instantiate(lq, c.as64(hv))
+				} else {
+					fv.instantiate(lq, hv.T)
+				}
+			}
+			for _, sk := range fv.skolems {
+				if sk.sort == srt {
+					fv.instantiate(lq, sk.term)
+				}
+			}
+			return bval("true")
+		}
+	}
 	c2 := c.clone()
 	c2.vars[name] = bv
+	c2.pol = 0
 	fv.boundDepth++
 	b := c2.eval(body)
 	fv.boundDepth--
@@ -228,6 +332,52 @@ func (c *cenv) evalQuant(src string) Val {
 		t = "(exists ((" + bv.T + " " + bv.sortOf() + ")) " + and(guard, b.T) + ")"
 	}
 	return bval(t)
+}
+
+// lazyQuant is an assumed "forall x ... :: body" kept for instantiation.
+type lazyQuant struct {
+	env     *cenv
+	name    string
+	proto   Val
+	sort    string
+	mkGuard func(string) string
+	body    string
+	guard   string
+	done    map[string]bool
+}
+
+type skolem struct {
+	term string
+	sort string
+}
+
+func (fv *FnVC) instantiateLazies(sk, srt string) {
+	fv.skolems = append(fv.skolems, skolem{sk, srt})
+	for _, lq := range fv.lazies {
+		if lq.sort == srt {
+			fv.instantiate(lq, sk)
+		}
+	}
+}
+
+func (fv *FnVC) instantiate(lq *lazyQuant, idx string) {
+	if lq.done[idx] {
+		return
+	}
+	lq.done[idx] = true
+	c2 := lq.env.clone()
+	v := lq.proto
+	v.T = idx
+	c2.vars[lq.name] = v
+	c2.pol = -1
+	c2.ante = nil
+	c2.guard = and(lq.guard, lq.mkGuard(idx))
+	b := c2.eval(lq.body)
+	if c2.err != nil {
+		fv.specErr(c2.err)
+		return
+	}
+	fv.emit("(assert " + implies(lq.guard, implies(lq.mkGuard(idx), b.T)) + ")")
 }
 
 func (c *cenv) as64(v Val) string {
@@ -368,7 +518,12 @@ func (c *cenv) expr(e ast.Expr) Val {
 		}
 		return fv.load(c.st, x.T, pt.Elem())
 	case *ast.UnaryExpr:
+		sp := c.pol
+		if e.Op == token.NOT {
+			c.pol = -sp
+		}
 		x := c.expr(e.X)
+		c.pol = sp
 		switch e.Op {
 		case token.NOT:
 			return bval(not(x.T))
@@ -384,7 +539,13 @@ func (c *cenv) expr(e ast.Expr) Val {
 		}
 	case *ast.BinaryExpr:
 		if e.Op == token.LAND || e.Op == token.LOR {
-			a, b := c.expr(e.X), c.expr(e.Y)
+			a := c.expr(e.X)
+			sa := c.ante
+			if e.Op == token.LOR && c.pol < 0 {
+				c.ante = append(append([]string(nil), sa...), not(a.T))
+			}
+			b := c.expr(e.Y)
+			c.ante = sa
 			if a.K != KBool || b.K != KBool {
 				return c.fail("boolean operands expected for %s", e.Op)
 			}
@@ -393,7 +554,10 @@ func (c *cenv) expr(e ast.Expr) Val {
 			}
 			return bval(or(a.T, b.T))
 		}
+		sp0 := c.pol
+		c.pol = 0
 		a, b := c.expr(e.X), c.expr(e.Y)
+		c.pol = sp0
 		a, b = c.unify(a, b)
 		if a.K != b.K && !(a.K == KLoc && b.K == KLoc) {
 			return c.fail("operand kinds differ in %s (%d vs %d)", e.Op, a.K, b.K)
@@ -717,6 +881,9 @@ func (c *cenv) lvalue(e ast.Expr) (loc string, t types.Type, ok bool) {
 }
 
 func (c *cenv) call(e *ast.CallExpr) Val {
+	sp := c.pol
+	c.pol = 0
+	defer func() { c.pol = sp }()
 	fv := c.fv
 	// spec.f(...)
 	if sel, ok := e.Fun.(*ast.SelectorExpr); ok {
@@ -805,6 +972,9 @@ func (c *cenv) call(e *ast.CallExpr) Val {
 			if types.IsInterface(t) {
 				return bval(and(not(eq("(itag "+x.T+")", "0")), "("+fv.implPred(t)+" (itag "+x.T+"))"))
 			}
+			if k := c.knownTag(x); k > 0 {
+				return bval(fmt.Sprint(k == fv.eng.tagOf(t)))
+			}
 			return bval(eq("(itag "+x.T+")", fmt.Sprint(fv.eng.tagOf(t))))
 		case "sameslice":
 			a, b := c.expr(e.Args[0]), c.expr(e.Args[1])
@@ -827,6 +997,29 @@ func (c *cenv) call(e *ast.CallExpr) Val {
 				return c.fail("view() of non-object")
 			}
 			return c.view(x)
+		case "mutablekind":
+			// the value's representation holds script-mutable state (array, map, bytes, error payload)
+			x := c.expr(e.Args[0])
+			if x.K != KIface {
+				return c.fail("mutablekind() of non-object")
+			}
+			tp := fv.eng.tpkgs[modPath]
+			var ds []string
+			for _, n := range []string{"Array", "ImmutableArray", "Map", "ImmutableMap", "Bytes", "Error"} {
+				o := tp.Scope().Lookup(n)
+				if o == nil {
+					return c.fail("mutablekind: type %s not found", n)
+				}
+				tag := fv.eng.tagOf(types.NewPointer(o.Type()))
+				if k := c.knownTag(x); k > 0 {
+					if k == tag {
+						return bval("true")
+					}
+					continue
+				}
+				ds = append(ds, eq("(itag "+x.T+")", fmt.Sprint(tag)))
+			}
+			return bval(or(ds...))
 		case "boolobj":
 			b := c.expr(e.Args[0])
 			return c.boolObj(b.T)
@@ -944,13 +1137,37 @@ func (c *cenv) view(x Val) Val {
 		{"Error", func() string { return "(VErr " + fld("Error", "Value").T + ")" }},
 	}
 	t := "(VOther (itag " + x.T + ") " + loc + ")"
+	known := c.knownTag(x)
 	for i := len(arms) - 1; i >= 0; i-- {
 		pt, _ := ptrTo(arms[i].typ)
 		if pt == nil {
 			return c.fail("view: type %s not found", arms[i].typ)
 		}
 		tag := fv.eng.tagOf(pt)
+		if known == tag {
+			return Val{K: KOpaque, Sort: "V", T: fv.def("view", "V", arms[i].term())}
+		}
+		if known > 0 {
+			continue
+		}
 		t = ite(eq("(itag "+x.T+")", fmt.Sprint(tag)), arms[i].term(), t)
 	}
 	return Val{K: KOpaque, Sort: "V", T: fv.def("view", "V", t)}
+}
+
+// knownTag: the dynamic type tag of an interface term when it is fixed on
+// every path to the current point (or syntactically), else 0.
+func (c *cenv) knownTag(x Val) int {
+	if strings.HasPrefix(x.T, "(mkiface ") {
+		var tag int
+		if _, err := fmt.Sscanf(x.T, "(mkiface %d ", &tag); err == nil {
+			return tag
+		}
+	}
+	if c.st != nil {
+		if k := c.st.tags[x.T]; k > 0 {
+			return k
+		}
+	}
+	return 0
 }
